@@ -116,6 +116,54 @@ def monitor(c, g, et):
     return None
 
 
+def run_net(ck):
+    """the collection step on the real code: SynchronizedWithNetwork against fake peers (answering with a clock offset
+    or failing); refuse exactly when an ANSWERING peer is far off — peers that do not answer are ignored and must not
+    make the node ignore the others (collectTime keeps the results it has)."""
+    rng = ck.rng
+    n = 24 if ck.tier == "quick" else 150
+    cases = [["dead", "off:3600", "ok"], ["off:-30", "dead"], ["dead", "dead", "off:10"], ["ok", "dead"], ["dead"], ["off:0.2", "ok"],
+             ["self", "ok", "off:-3600", "dead", "ok"], ["self"], ["off:3600"], ["ok", "ok", "ok"]]
+    while len(cases) < n:
+        k = rng.randint(1, 5)
+        c = [rng.choice(["ok", "ok", "dead", "dead", "off:0.2", "off:-0.3", "off:3600", "off:-3600", "off:30", "off:-10", "self"]) for _ in range(k)]
+        cases.append(c)
+    wd = vlib.workdir()
+    inp, outp = os.path.join(wd, "tsgnet.in"), os.path.join(wd, "tsgnet.out")
+    open(inp, "w").write("".join("tsgnet %d %s\n" % (i, " ".join(c)) for i, c in enumerate(cases)))
+    if os.path.exists(outp):
+        os.remove(outp)
+    rc, out = vlib.go_test("./internal/timesafeguard/",
+                           {vlib.REPO + "/internal/timesafeguard/zz_verif_tsgnet_test.go": vlib.HGO + "/timesafeguard/zz_verif_tsgnet_test.go"},
+                           "^TestVerifTsgNet$", {"VERIF_IN": inp, "VERIF_OUT": outp}, timeout=900)
+    if rc != 0 or not os.path.exists(outp):
+        ck.add_obligation(False, "network-level driver (collectTime / SynchronizedWithNetwork) ran")
+        ck.violation("tie-broken:go-driver-net", {"what": "the network-level driver did not build/run against the current tree", "output": out[-3000:],
+                                                  "obligation": "correspondence tsgdrv (collection step)"}, concrete=False)
+        return
+    ck.add_obligation(True, "network-level driver (collectTime / SynchronizedWithNetwork) ran")
+    got = {}
+    for l in open(outp).read().split("\n"):
+        f = l.split()
+        if len(f) == 3:
+            got[int(f[1])] = f[2]
+    dist, seen = {}, set()
+    for i, c in enumerate(cases):
+        far = [p for p in c if p.startswith("off:") and abs(float(p[4:])) >= 10]
+        want = "refuse" if far else "accept"
+        g = got.get(i)
+        dist[want] = dist.get(want, 0) + 1
+        if g != want and want + str(g) not in seen:
+            seen.add(want + str(g))
+            ck.violation("net:" + ("joined-despite-skewed-peer" if want == "refuse" else "refused-synchronised-network"),
+                         {"what": "peers %s: SynchronizedWithNetwork answered %s, the property demands %s (a peer that answers with a clock %s off must be "
+                                  "refused whatever the other peers do)" % (c, g, want, far or "-"),
+                          "cases": ["tsgnet 0 " + " ".join(c)], "how_to_replay": "bin/check C19 (network-level cases are regenerated from the seed)"}, concrete=True)
+    ck.cov["net_cases"] = len(cases)
+    ck.cov["net_distribution"] = dist
+    ck.cov["evaluations"] = ck.cov.get("evaluations", 0) + len(cases)
+
+
 def run(ck, replay):
     ck.cov["trusted_base"] += [
         "python regex scan of robustirc.go / timesafeguard.go for the constant and the call order (translator-lite)",
@@ -200,6 +248,8 @@ def run(ck, replay):
         ck.violation("proof-broken", {"what": "proof obligations not discharged", "errors": ck.proof_errors,
                                       "obligation": ck.proof_result.get("broken_at", "Properties/C19.v"),
                                       "coq_output": ck.proof_result["output_tail"]}, concrete=False)
+    if not replay:
+        run_net(ck)
     bad = [o for o in ck.cov.get("extra_obligations", []) if not o["ok"]]
     if bad and not monfail:
         ck.violation("obligation:" + bad[0]["name"].replace(" ", "_"), {"what": "source-derived obligation failed", "obligations": bad,
